@@ -156,8 +156,11 @@ where
                     if let Some(future_poll) = future_poll {
                         let keep_polling    = future_poll.await;
                         if !keep_polling {
-                            // Deallocate the function when it's time to stop polling altogether
-                            (*arc_self.poll_fn.lock().unwrap()) = None;
+                            // Deallocate the function when it's time to stop polling altogether. It owns the input stream, whose
+                            // destructor may wake us up again (calling back into poll(), which takes this lock), so it's dropped
+                            // once the lock has been released
+                            let old_poll_fn = arc_self.poll_fn.lock().unwrap().take();
+                            std::mem::drop(old_poll_fn);
                         }
                     }
                 }
